@@ -287,7 +287,7 @@ PROPS["C01"] = {
                    "c01::c01_reader_ctxbox_k3", "c01::c01_counter_box_k3", "c01::c01_counter_mut_k3", "c01::c01_counter_ctxbox_k3",
                    "c01::c01_consume_box_k2", "c01::c01_consume_ctxbox_k2", "c01::c01_group_consume", "c01::c01_group_box_k3",
                    "c01::c01_group_cast_k2", "c01::c01_group_mut_k3", "c01::c01_generic_and_lifetime_traits",
-                   "c01::c01_two_borrowed_results_alive", "c01::c01_group_partial_impl", "c01::c01_negative_twin"],
+                   "c01::c01_two_borrowed_results_alive", "c01::c01_group_partial_impl", "c01::c01_overridden_defaults_and_marker_scope", "c01::c01_negative_twin"],
          "thorough_adds": ["c01::c01_reader_box_k4", "c01::c01_reader_ref_k4", "c01::c01_reader_arc_k4", "c01::c01_counter_box_k4",
                            "c01::c01_counter_mut_k4", "c01::c01_counter_ctxbox_k4", "c01::c01_consume_box_k3",
                            "c01::c01_consume_ctxbox_k3", "c01::c01_group_box_k4", "c01::c01_group_cast_k3", "c01::c01_group_mut_k4"],
